@@ -357,6 +357,7 @@ fn hb_strat(_t: Tier) -> BoxedStrategy<crate::checks::c17::Case> {
             silent_after_ms,
             publish_pct: None,
             feed_other,
+            slow_open_pct: None,
         })
         .boxed()
 }
